@@ -346,6 +346,12 @@ def s_case(draw, tier=None, ops=None, max_ops=6):
              "pb_sign_filter": True, "custom_extra": fp.PB_CUSTOM_EXTRA, "min_types": 0}
     sc = draw(fp.file_scenario("xml", max_lanelets=4, max_obstacles=4, max_pps=2, min_pps=1, decimals=4,
                                extra_profile=extra))
+    # enrich: a speed-limit sign with two additional values (its label is converted to km/h or mph when it is drawn)
+    if sc["signs"] and draw(st.integers(0, 2)) == 0:
+        el = sc["signs"][0]["elements"][0]
+        if "MAX_SPEED" in [m.name for m in gs.sign_enum_class(el["country"])]:
+            sc["signs"][0]["elements"][0] = dict(el, name="MAX_SPEED", values=["13.89", "30"])
+            sc["signs"][0]["virtual"] = False
     # enrich: a closed course - the last lanelet of a chain leads back into its first one (roundabout ring)
     if len(sc["lanelets"]) >= 2 and draw(st.integers(0, 3)) == 0:
         by_id = {l["id"]: l for l in sc["lanelets"]}
